@@ -331,7 +331,9 @@ func (c *Ctx) sliceReviewed(fn *ssa.Function, sl *ssa.Slice, guards []Lit) (bool
 		maxLen := P.Desc(fn.Params[1])
 		// all slices happen only when len(s) > maxLen
 		longer := has(func(l Lit) bool { return l.Kind == "lt" && l.Pos && P.Desc(l.X) == maxLen && P.Desc(l.Y) == lenX }) ||
-			has(func(l Lit) bool { return l.Kind == "lt" && !l.Pos && P.Desc(l.X) == maxLen && P.Desc(l.Y) == lenX && false })
+			has(func(l Lit) bool {
+				return l.Kind == "lt" && !l.Pos && P.Desc(l.X) == maxLen && P.Desc(l.Y) == lenX && false
+			})
 		if !longer {
 			// `if len(s) <= maxLen { return s }`  ==  !(maxLen < len(s)) on the return; site has +lt(maxLen, len(s))
 			return false, "slice of the line without the `len(s) > maxLen` guard"
@@ -347,7 +349,9 @@ func (c *Ctx) sliceReviewed(fn *ssa.Function, sl *ssa.Slice, guards []Lit) (bool
 		case lo == "" && hi == maxLen:
 			return true, "reviewed: s[:maxLen] under len(s) > maxLen"
 		case lo == "" && hi == "binop(-; "+maxLen+", const(3))":
-			if has(func(l Lit) bool { return l.Kind == "lt" && !l.Pos && strings.HasPrefix(P.Desc(l.X), maxLen) == false && P.Desc(l.Y) == "const(3)" || l.Kind == "lt" && l.Pos && P.Desc(l.X) == "const(3)" && P.Desc(l.Y) == maxLen }) {
+			if has(func(l Lit) bool {
+				return l.Kind == "lt" && !l.Pos && strings.HasPrefix(P.Desc(l.X), maxLen) == false && P.Desc(l.Y) == "const(3)" || l.Kind == "lt" && l.Pos && P.Desc(l.X) == "const(3)" && P.Desc(l.Y) == maxLen
+			}) {
 				return true, "reviewed: s[:maxLen-3] under 3 < maxLen < len(s)"
 			}
 			return false, "s[:maxLen-3] without the maxLen > 3 guard"
